@@ -3,7 +3,8 @@
 // The routines under test are the crate's generic ping-pong functions instantiated with `Toy`, an
 // order-sensitive instrumented VDAF defined here through the public Aggregator trait:
 //   * R in {1,2,3} verification rounds,
-//   * a verifier share is one byte that names (role, round),
+//   * a verifier share is one byte that names (role, round) and only decodes against a state of the same round
+//     (round-dependent wire format, as in Poplar1),
 //   * verifier_shares_to_message concatenates the shares in the order it receives them,
 //   * verify_next accepts a message only if it is [leader share, helper share] of the state's round.
 // The oracle (`expected_*`) is the VDAF draft's ping-pong state machine written independently.
@@ -23,6 +24,15 @@ pub struct Toy {
 
 fn tag(role: u8, round: u8) -> u8 {
     1 + role * 8 + round
+}
+
+/// the round a share byte claims (None for bytes that are not shares)
+fn share_round(b: u8) -> Option<u8> {
+    if b == 0 || b > 16 {
+        None
+    } else {
+        Some((b - 1) % 8)
+    }
 }
 
 fn out_of(role: u8, rounds: u8) -> u8 {
@@ -70,8 +80,15 @@ impl Encode for ToyShare {
     }
 }
 impl ParameterizedDecode<ToyState> for ToyShare {
-    fn decode_with_param(_: &ToyState, bytes: &mut Cursor<&[u8]>) -> Result<Self, CodecError> {
-        Ok(ToyShare(u8::decode(bytes)?))
+    // the wire format of a share depends on the round of the state it is decoded against (as in Poplar1, where a
+    // round-one share has three elements and a round-two share one): a share of round r only decodes under a
+    // round-r state
+    fn decode_with_param(st: &ToyState, bytes: &mut Cursor<&[u8]>) -> Result<Self, CodecError> {
+        let b = u8::decode(bytes)?;
+        if share_round(b) != Some(st.round) {
+            return Err(CodecError::UnexpectedValue);
+        }
+        Ok(ToyShare(b))
     }
 }
 impl Encode for ToyMsg {
@@ -269,7 +286,7 @@ pub fn c12_continued_one_step() {
     let finishing = round + 1 >= toy.rounds;
     match shape {
         1 => {
-            if msg_ok && !finishing {
+            if msg_ok && !finishing && share_round(p[2]) == Some(round + 1) {
                 let r = round + 1;
                 let host = tag(role, r);
                 let peer = p[2];
@@ -331,7 +348,7 @@ pub fn c12_helper_initialized() {
         any_inbound(shape, p)
     };
     let got = toy.helper_initialized(&[], b"", &(), &[0; 16], &(), &ToyIn(3), &inbound);
-    if shape == 0 {
+    if shape == 0 && share_round(p[0]) == Some(0) {
         match &got {
             Ok(c) => match &c.0 {
                 PingPongContinuationInner::Transition { previous_verifier_state, current_verifier_message } => {
